@@ -1,4 +1,5 @@
-//! Universe S: sized payload, every handle kind (DESIGN §2.4).
+// Universe S: sized payload, every handle kind (DESIGN §2.4). Included twice (see main.rs): once with
+// an 8-aligned payload ("S") and once with a 64-aligned one ("SW"); `P` and `UNAME` come from the includer.
 use crate::cmp::*;
 use crate::engine::*;
 use std::alloc::Layout;
@@ -8,7 +9,6 @@ use vrt::arena::cap;
 use vrt::rmwlog;
 use vrt::track::{self, Peek, Tracked};
 
-pub type P = Tracked<1>;
 #[repr(C, align(16))]
 pub struct Q(Tracked<2>, [u8; 24]);
 
@@ -202,6 +202,11 @@ pub enum HOp {
     IntoInner,
     DerefMutW,
     DynGetMutW,
+    /// the same call with the payload's `Clone` armed to panic at its first invocation
+    MakeMutPanic,
+    MakeUniquePanic,
+    OffMakeMutPanic,
+    UnwrapOrClonePanic,
 }
 const ALL_HOPS: &[HOp] = &[
     HOp::Clone,
@@ -244,6 +249,10 @@ const ALL_HOPS: &[HOp] = &[
     HOp::IntoInner,
     HOp::DerefMutW,
     HOp::DynGetMutW,
+    HOp::MakeMutPanic,
+    HOp::MakeUniquePanic,
+    HOp::OffMakeMutPanic,
+    HOp::UnwrapOrClonePanic,
 ];
 const ALL_CTORS: &[Ctor] = &[Ctor::ArcNew, Ctor::FromT, Ctor::FromBox, Ctor::Default, Ctor::UniqueNew];
 
@@ -258,10 +267,10 @@ fn applicable(k: K, op: HOp) -> bool {
     match op {
         Clone => matches!(k, K::A | K::O | K::U1 | K::U2 | K::E | K::D),
         Drop => matches!(k, K::A | K::O | K::U1 | K::U2 | K::E | K::D | K::X),
-        IntoOffset | IntoU1 | IntoU2 | IntoRaw | Erase | IntoDyn | BorrowCloneArc | BorrowWithArcClone | FromPtrCloneArc | WithRawOffsetClone | WithRawOffsetCloneArc | GetMutW | GetUniqueW | MakeMutW | MakeUniqueW | TryUnique | TryFromU | TryUnwrap | UnwrapOrClone => k == K::A,
+        IntoOffset | IntoU1 | IntoU2 | IntoRaw | Erase | IntoDyn | BorrowCloneArc | BorrowWithArcClone | FromPtrCloneArc | WithRawOffsetClone | WithRawOffsetCloneArc | GetMutW | GetUniqueW | MakeMutW | MakeUniqueW | TryUnique | TryFromU | TryUnwrap | UnwrapOrClone | MakeMutPanic | MakeUniquePanic | UnwrapOrClonePanic => k == K::A,
         UnsizeDyn | IntoW => k == K::A && cfg!(feature = "cfg_all"),
         FromW => k == K::W,
-        FromOffset | OffCloneArc | OffWithArcClone | OffBorrowCloneArc | OffMakeMutW => k == K::O,
+        FromOffset | OffCloneArc | OffWithArcClone | OffBorrowCloneArc | OffMakeMutW | OffMakeMutPanic => k == K::O,
         FromRaw | RawBorrowCloneArc => k == K::R,
         Unerase => k == K::E,
         DynIntoRaw | DynGetMutW => k == K::D,
@@ -284,6 +293,7 @@ fn home(op: HOp) -> u32 {
         GetMutW | GetUniqueW | DerefMutW | DynGetMutW => VERDICT,
         TryUnique | TryFromU => VERDICT | UNWRAP,
         MakeMutW | MakeUniqueW | OffMakeMutW => COW,
+        MakeMutPanic | MakeUniquePanic | OffMakeMutPanic | UnwrapOrClonePanic => COW | UNWRAP | LIFETIME,
         TryUnwrap | UnwrapOrClone | IntoInner => UNWRAP,
         IntoU1 | IntoU2 | UBorrowCloneArc | UAsVariantCloneArc => UNION | LIFETIME,
         IntoRaw | FromRaw | DynIntoRaw | DynFromRaw | IntoW | FromW | IntoDyn => ADDRESS | LIFETIME,
@@ -527,6 +537,38 @@ fn step_inner(r: &mut Real, m: &mut Model, op: &Op, cx: &mut Ctx) -> bool {
                             true
                         }
                     }
+                    MakeMutPanic | MakeUniquePanic | OffMakeMutPanic | UnwrapOrClonePanic => {
+                        // only offered while the value is shared (see `enabled`): the clone is attempted and panics
+                        let owners = m.al(a).owners;
+                        track::arm_clone_panic(1);
+                        let res = if hop == UnwrapOrClonePanic {
+                            let h = r.hs.remove(i);
+                            m.hs.remove(i);
+                            let H::A(x) = h else { unreachable!() };
+                            vrt::catch(|| cap(|| drop(Arc::unwrap_or_clone(x))))
+                        } else {
+                            let hh = &mut r.hs[i];
+                            vrt::catch(|| {
+                                cap(|| match (hh, hop) {
+                                    (H::A(x), MakeMutPanic) => Arc::make_mut(x).flip(),
+                                    (H::A(x), MakeUniquePanic) => Arc::make_unique(x).flip(),
+                                    (H::O(x), OffMakeMutPanic) => x.make_mut().flip(),
+                                    _ => unreachable!(),
+                                })
+                            })
+                        };
+                        track::arm_clone_panic(0);
+                        if res.is_ok() || owners < 2 {
+                            cx.fail_derail(COW, "clone-panic-outcome", format!("{}: expected the armed Clone to be called (value shared by {} owners) and its panic to propagate; call returned {:?}", what, owners, res.is_ok()));
+                        }
+                        if hop == UnwrapOrClonePanic {
+                            // the handle passed by value is released while unwinding
+                            m.release(a, &mut exp);
+                        }
+                        // otherwise nothing may have changed: same allocation, same count, same value
+                        compare(&exp, &delta(&s), hc, false, &what, cx);
+                        true
+                    }
                     TryUnique | TryFromU => {
                         let h = r.hs.remove(i);
                         let H::A(x) = h else { unreachable!() };
@@ -680,7 +722,7 @@ impl Universe for US {
     type Real = Real;
     type Model = Model;
     type Op = Op;
-    const NAME: &'static str = "S";
+    const NAME: &'static str = UNAME;
 
     fn new() -> (Real, Model) {
         (Real { hs: Vec::with_capacity(16), blocks: Vec::with_capacity(16) }, Model { slots: [None, None], hs: Vec::with_capacity(16) })
@@ -706,6 +748,9 @@ impl Universe for US {
                     continue;
                 }
                 if may_allocate(*op) && m.al(h.a).owners > 1 && (live >= b.max_allocs.min(2)) {
+                    continue;
+                }
+                if matches!(op, HOp::MakeMutPanic | HOp::MakeUniquePanic | HOp::OffMakeMutPanic | HOp::UnwrapOrClonePanic) && m.al(h.a).owners < 2 {
                     continue;
                 }
                 v.push(Op::H(i as u8, *op));
